@@ -14,8 +14,11 @@
 EXTENDS Naturals, Sequences, FiniteSets, TLC, MTDecodeKinds
 
 CONSTANTS Kinds, MaxRows,
-          Dev_NoWrapsEscapes   \* a function decorated without functools.wraps decodes to the wrapper closure and
-                               \* FunctionKind.from_callable later raises NameLookupError OUTSIDE the per-row try
+          Dev_NoWrapsEscapes   \* (as the code was until fix 1e972f6) a name bound to a function-local function - the wrapper of a
+                               \* decorator without functools.wraps, a closure - or to a property with a non-function getter
+                               \* DECODES, and stub generation later raises OUTSIDE the per-row try
+
+EscapingKinds == {"nowraps", "now_closure", "prop_getter_nonfunction"}
 
 VARIABLES rows, pos, traces, failed, rc, phase
 vars == <<rows, pos, traces, failed, rc, phase>>
@@ -28,13 +31,13 @@ AddRow(kind) == /\ phase = "building" /\ Len(rows) < MaxRows
 StartCommand == /\ phase = "building" /\ phase' = "decoding" /\ UNCHANGED <<rows, pos, traces, failed, rc>>
 
 DecodeNext == /\ phase = "decoding" /\ pos < Len(rows)
-              /\ LET o == Outcome(rows[pos + 1]) IN
+              /\ LET o == IF Dev_NoWrapsEscapes /\ rows[pos + 1] \in EscapingKinds THEN "ok" ELSE Outcome(rows[pos + 1]) IN
                  IF o \in {"NameLookupError", "InvalidTypeError"}      \* except MonkeyTypeError
                  THEN failed' = failed + 1 /\ traces' = traces
                  ELSE failed' = failed /\ traces' = Append(traces, rows[pos + 1])
               /\ pos' = pos + 1 /\ UNCHANGED <<rows, rc, phase>>
 Build == /\ phase = "decoding" /\ pos = Len(rows)
-         /\ IF Dev_NoWrapsEscapes /\ \E j \in 1..Len(traces) : traces[j] = "nowraps"
+         /\ IF Dev_NoWrapsEscapes /\ \E j \in 1..Len(traces) : traces[j] \in EscapingKinds
             THEN rc' = 1 /\ phase' = "crashed"
             ELSE rc' = 0 /\ phase' = IF Len(traces) = 0 THEN "no_traces" ELSE "stub"
          /\ UNCHANGED <<rows, pos, traces, failed>>
